@@ -80,7 +80,8 @@ func driveC01(t *testing.T, out *vEmitter) {
 						o.SkipAuthRoutes = []string{"GET=^/public"}
 					}
 					if v.trustedIP {
-						o.TrustedIPs = []string{"10.0.0.0/8"}
+						// several networks of one family with different prefix lengths, the wider one first
+						o.TrustedIPs = []string{"127.0.0.0/8", "10.0.0.0/24", "::1"}
 					}
 					o.SkipAuthPreflight = v.preflight
 					o.ForceJSONErrors = v.forceJSON
@@ -160,6 +161,7 @@ func driveC01(t *testing.T, out *vEmitter) {
 				{label: "bearer-other-key", auth: "Bearer " + vJWT(vKeyRSA2, "RS256", vClaims("carol@example.com", nil))},
 				{label: "bearer-wrong-aud", auth: "Bearer " + vJWT(vKeyRSA, "RS256", vClaims("carol@example.com", map[string]interface{}{"aud": "other"}))},
 				{label: "bearer-expired", auth: "Bearer " + vJWT(vKeyRSA, "RS256", vClaims("carol@example.com", map[string]interface{}{"exp": time.Now().Unix() - 100}))},
+				{label: "bearer-foreign-issuer", auth: "Bearer " + vJWT(vKeyRSA, "RS256", vClaims("carol@example.com", map[string]interface{}{"iss": "https://other-idp.example"}))},
 				{label: "bearer-alg-none", auth: "Bearer " + vJWT(vKeyRSA, "none", vClaims("carol@example.com", nil))},
 				{label: "valid-basic", auth: "Basic " + base64.StdEncoding.EncodeToString([]byte("htuser:htpass")), basic: &vIdent{"", []string{"admins"}}},
 				{label: "basic-wrong-password", auth: "Basic " + base64.StdEncoding.EncodeToString([]byte("htuser:nope"))},
@@ -191,7 +193,12 @@ func driveC01(t *testing.T, out *vEmitter) {
 						continue
 					}
 					for _, method := range []string{"GET", "POST", "OPTIONS"} {
-						for _, remote := range []string{"192.0.2.10:40000", "10.1.2.3:5555"} {
+						remotes := []string{"192.0.2.10:40000", "10.0.0.7:5555"}
+						if v.trustedIP && (c.label == "none" || c.label == "valid-cookie" || vThorough()) {
+							// inside the wider network's mask of a narrower trusted network, but not in it
+							remotes = append(remotes, "10.9.9.9:5555", "10.0.1.7:5555")
+						}
+						for _, remote := range remotes {
 							for _, ajax := range []bool{false, true} {
 								if !vThorough() && (method != "GET" && (ajax || remote[0] == '1' && remote[1] == '0' && p.kind == "other")) {
 									continue
@@ -277,7 +284,7 @@ func vC01Case(out *vEmitter, e *vEnv, v vC01Variant, redis bool, c vCred, target
 		path = path[:i]
 	}
 	bypass := (v.preflight && method == "OPTIONS") || (v.skipRoute && method == "GET" && strings.HasPrefix(path, "/public")) ||
-		(v.trustedIP && strings.HasPrefix(remote, "10."))
+		(v.trustedIP && strings.HasPrefix(remote, "10.0.0."))
 	var vouched *vIdent
 	switch {
 	case c.bearer != nil:
